@@ -34,6 +34,17 @@ fn problems() -> Vec<Prob> {
         vdp(1000.0),
         // stiff for the explicit methods: their runs end with ProbablyStiff / StepSizeTooSmall after
         // thousands of steps; the counters must be right at those exits too
+        // a right-hand side with a restricted domain integrated to its edge (the tank is empty at t = 2):
+        // trial states beyond it answer NaN, Newton iterations end without converging
+        Prob {
+            name: "draining tank y'=-sqrt(y)".into(),
+            n: 1,
+            f: Arc::new(|_t, y, d| d[0] = -y[0].sqrt()),
+            jac: Some(Arc::new(|_t, y| vec![-0.5 / y[0].sqrt()])),
+            flow: None,
+            y0: vec![1.0],
+            linear_homogeneous: false,
+        },
         Prob {
             name: "tracking y'=-2000(y-cos t)".into(),
             n: 1,
